@@ -23,8 +23,8 @@ func init() {
 	})
 }
 
-var c13Versions = []string{band.LoRaWAN_1_0_0, band.LoRaWAN_1_0_1, band.LoRaWAN_1_0_2, band.LoRaWAN_1_0_3, band.LoRaWAN_1_0_4, band.LoRaWAN_1_1_0, "zz", "", "1.0", "1.1", "1", "1.0.5", "1.0.3-rc1", "v1.0.3"} // the last eight are unknown strings: they resolve to the latest table
-var c13Revisions = []string{band.RegParamRevA, band.RegParamRevB, band.RegParamRevC, band.RegParamRevRP002_1_0_0, band.RegParamRevRP002_1_0_1, band.RegParamRevRP002_1_0_2, band.RegParamRevRP002_1_0_3, "zz", "", "RP002-1.0.4", "a", "D"}
+var c13Versions = []string{band.LoRaWAN_1_0_0, band.LoRaWAN_1_0_1, band.LoRaWAN_1_0_2, band.LoRaWAN_1_0_3, band.LoRaWAN_1_0_4, band.LoRaWAN_1_1_0, "zz", "", "1.0", "1.1", "1", "1.0.5", "1.0.3-rc1", "v1.0.3", "1.0.2A", "1.0.2B", "1.1.0A", "latest", "latestlatest"} // all after 1.1.0 are unknown strings: they resolve to the latest table
+var c13Revisions = []string{band.RegParamRevA, band.RegParamRevB, band.RegParamRevC, band.RegParamRevRP002_1_0_0, band.RegParamRevRP002_1_0_1, band.RegParamRevRP002_1_0_2, band.RegParamRevRP002_1_0_3, "zz", "", "RP002-1.0.4", "a", "D", "1.0.2A", "latest", "2A", "0.2A"}
 
 type sizeKey struct {
 	name     string
